@@ -15,6 +15,7 @@ def main():
     programs, meta = [], {"families": {}}
     for b in BACKENDS:
         ps, m = gen.c01_programs(b, a.tier, a.seed)
+        ps += gen.c04_programs(b, a.tier)      # partial operations in every lazy position (shared with C04)
         if a.tier == "quick" and b != "atlas":
             ps = ps[::3]          # CMS backends share common/: a representative third in quick
         meta["families"][b] = dict(m, programs=len(ps))
